@@ -40,6 +40,27 @@ func genCorpus(m *Model) {
 			add("ssh-rsa", "1", sshRSAParty(m, 1), size, armored)
 		}
 	}
+	// multi-recipient files, every order of the three public-key types, one entry per identity
+	rsaP := sshRSAParty(m, 1)
+	trio := []*party{x25519Party(xsec), sshEdParty(eseed), rsaP}
+	secrets := []string{hx(xsec), hx(eseed), "1"}
+	for pi, perm := range permutations(3) {
+		var ps []*party
+		for _, k := range perm {
+			ps = append(ps, trio[k])
+		}
+		sc := &scenario{parties: ps, plain: c.rng.bytes(5 + pi), armor: pi%2 == 1}
+		file, err, _, _ := encryptImplNoTape(sc)
+		if err != nil {
+			panic(err)
+		}
+		name := fmt.Sprintf("mixed-%d%d%d-%v.age", perm[0], perm[1], perm[2], sc.armor)
+		os.WriteFile(filepath.Join(corpusDir(), name), file, 0o644)
+		h := sha256.Sum256(sc.plain)
+		for k, p := range trio {
+			entries = append(entries, &corpusEntry{File: name, Armored: sc.armor, Kind: p.kind, Secret: secrets[k], PlainSHA: hx(h[:]), PlainLen: len(sc.plain)})
+		}
+	}
 	b, _ := json.MarshalIndent(entries, "", " ")
 	os.WriteFile(filepath.Join(corpusDir(), "index.json"), b, 0o644)
 	fmt.Println("corpus:", len(entries), "files")
